@@ -102,18 +102,18 @@ type monitor struct {
 	uni      map[common.Address]string
 	uniOrder []common.Address
 
-	named     map[string]common.Address // fixed refs
-	contracts map[string]common.Address // fixture contracts by name
-	newAddrs  map[int]common.Address    // contract created by tx k of the current sequence
-	keys      []*ecdsa.PrivateKey
-	minerIDs  [][]byte
+	named         map[string]common.Address // fixed refs
+	contracts     map[string]common.Address // fixture contracts by name
+	newAddrs      map[int]common.Address    // contract created by tx k of the current sequence
+	keys          []*ecdsa.PrivateKey
+	minerIDs      [][]byte
 	genesisMiners [][]byte
-	groupID   []byte
-	castor    []byte
+	groupID       []byte
+	castor        []byte
 
-	tokenAddr common.Address
-	tokenPos  uint64
-	baseline  map[string]string // slot key -> value (hex) at the fixture root
+	tokenAddr   common.Address
+	tokenPos    uint64
+	baseline    map[string]string // slot key -> value (hex) at the fixture root
 	fixtureRoot common.Hash
 
 	total *big.Int // tracked total over the universe
@@ -377,7 +377,7 @@ func (m *monitor) build(idx int, s *TxSpec, nonceAhead map[common.Address]uint64
 				m.addUni(crypto.CreateAddress(src, nonce-1), "new-alt")
 			}
 			input = compile(s.Prog, m.resolve)
-			m.predict(s.Prog, b.created, 1, 0)
+			m.predict(s.Prog, b.created, 1, 0, 0)
 		} else {
 			ta := m.resolve(s.To)
 			m.addUni(ta, s.To)
@@ -391,7 +391,7 @@ func (m *monitor) build(idx int, s *TxSpec, nonceAhead map[common.Address]uint64
 			// code deployed earlier in the sequence can create as well, in its own
 			// context or (through a delegating relay) in the relay's
 			call := Action{Op: "call", To: s.To, Args: s.Data}
-			m.predict([]Action{call}, src, nonce, 0)
+			m.predict([]Action{call}, src, nonce, 0, 0)
 		}
 		val := m.resolveAmt(src, s.Value)
 		if v, ok := parseTokens(val); ok {
@@ -530,7 +530,7 @@ var delegatingRelays = map[string]bool{"c:RelayDC": true, "c:RelayDCRevert": tru
 // CREATE2 children (recursively), and the children of every piece of code
 // deployed earlier in the sequence that it can reach — run in that code's own
 // context (CALL), in ctx (CALLCODE/DELEGATECALL) or in a delegating relay's.
-func (m *monitor) predict(prog []Action, ctx common.Address, nonce uint64, depth int) {
+func (m *monitor) predict(prog []Action, ctx common.Address, nonce uint64, depth int, slack uint64) {
 	if depth > 5 {
 		return
 	}
@@ -539,13 +539,17 @@ func (m *monitor) predict(prog []Action, ctx common.Address, nonce uint64, depth
 		switch ac.Op {
 		case "create":
 			// a failed CREATE may or may not have consumed the nonce: cover the neighbours
-			for _, k := range []uint64{n - 1, n, n + 1} {
-				if k == ^uint64(0) {
-					continue
-				}
+			// a CREATE/CREATE2 that fails early (insufficient balance, depth) does not
+			// consume the nonce, one that fails late does: every nonce from the start
+			// value to the running estimate is possible
+			lo := nonce
+			if lo > 0 {
+				lo--
+			}
+			for k := lo; k <= n+1+slack; k++ {
 				ch := crypto.CreateAddress(ctx, k)
 				m.addUni(ch, "child")
-				m.predict(ac.Init, ch, 1, depth+1)
+				m.predict(ac.Init, ch, 1, depth+1, 0)
 			}
 			n++
 		case "create2":
@@ -555,11 +559,11 @@ func (m *monitor) predict(prog []Action, ctx common.Address, nonce uint64, depth
 			copy(salt[32-len(sb):], sb)
 			ch := crypto.CreateAddress2(ctx, salt, crypto.Keccak256(init))
 			m.addUni(ch, "child")
-			m.predict(ac.Init, ch, 1, depth+1)
+			m.predict(ac.Init, ch, 1, depth+1, 0)
 			n++
 		case "return":
 			// the deployed runtime can be called later in the same transaction (then_call)
-			m.predict(ac.Runtime, ctx, n, depth+1)
+			m.predict(ac.Runtime, ctx, n, depth+1, slack)
 		case "call", "callcode", "delegatecall", "staticcall":
 			refs := append([]string{ac.To}, ac.Args...)
 			for i, ref := range refs {
@@ -568,13 +572,14 @@ func (m *monitor) predict(prog []Action, ctx common.Address, nonce uint64, depth
 					continue
 				}
 				own := m.resolve(ref)
-				m.predict(rt, own, m.adb.GetNonce(own), depth+1)
+				// code deployed earlier may be entered several times in one transaction
+				m.predict(rt, own, m.adb.GetNonce(own), depth+1, 8)
 				if i == 0 && (ac.Op == "callcode" || ac.Op == "delegatecall") {
-					m.predict(rt, ctx, n, depth+1)
+					m.predict(rt, ctx, n, depth+1, slack+2)
 				}
 				if i > 0 && delegatingRelays[refs[i-1]] {
 					relay := m.resolve(refs[i-1])
-					m.predict(rt, relay, m.adb.GetNonce(relay), depth+1)
+					m.predict(rt, relay, m.adb.GetNonce(relay), depth+1, 8)
 				}
 			}
 		}
